@@ -442,7 +442,10 @@ PROPS["C18"] = dict(
           "the maximum; every write whose plain size exceeds the limit of its entry point returns an error and, after a sentinel through the same "
           "path was seen on the wire, its sequence number / SSRC marker never appeared. Non-trivial: >=2 writes within 4 bytes of the limit and "
           ">=2 packets seen on the wire. (start) generated (MaxPacketSize, WriteQueueSize) for Server.Start and Client.Start: a maximum above 1472 "
-          "or a queue size that is not a power of two must be refused. Distinct by case hash."),
+          "or a queue size that is not a power of two must be refused, whatever protocol is forced and whether TLS / UDP are configured. (axis) "
+          "a recording client against a scripted RTSPS server that answers the first secure SETUP with 463 'Key management failure': the client "
+          "switches to keys of its own that carry a 4-byte MKI; RTP packets of limit-12..limit+6 and RTCP packets around the SRTCP limit are "
+          "written and no interleaved frame larger than the maximum may reach the server. Distinct by case hash."),
     assumptions=[
         "multicast writers are not exercised (no multicast route in the sandbox); the MKI variant of SRTP (client-managed keys) is not reachable with the library's own server",
         "the converse (every write within the limit is accepted) is not part of C18; C01 covers delivery of maximum-size packets",
@@ -450,6 +453,7 @@ PROPS["C18"] = dict(
     jobs=lambda tier: [
         seeded("sizes", "e2e", "^TestC18$", 400 if tier == "quick" else 6000, 16, timeout=900 if tier == "quick" else 3400),
         seeded("start", "e2e", "^TestC18Start$", 2000 if tier == "quick" else 50000, 1, timeout=900),
+        seeded("axis", "e2e", "^TestC18Axis$", 150 if tier == "quick" else 3000, 2, timeout=900),
     ],
 )
 
